@@ -108,7 +108,7 @@ func c06Cases(tier string, seed int64) []core.Case {
 	return cases
 }
 
-var c06states = []string{"none", "dir", "file", "openfile", "opendir", "clunked", "nofid", "created", "authfid"}
+var c06states = []string{"none", "dir", "file", "openfile", "opendir", "clunked", "nofid", "created", "authfid", "unlinked-open", "unlinked-dir"}
 
 // hostile is a server under attack plus its bystander connection.
 type hostile struct {
@@ -323,6 +323,21 @@ func (h *hostile) prepare(c *CConn, state string, msize uint32) (uint32, bool) {
 	case "clunked":
 		return 5, h.okRpc(c, &wire.Msg{Type: wire.Twalk, Tag: 2, Fid: 0, Newfid: 5, Wname: []string{"sub"}}) &&
 			h.okRpc(c, &wire.Msg{Type: wire.Tclunk, Tag: 3, Fid: 5})
+	case "unlinked-open":
+		// fid 5 is open on a file that another fid has removed meanwhile (for the Unix file server: an open
+		// descriptor whose name is gone)
+		name := fmt.Sprintf("gone%d", h.sessions)
+		return 5, h.okRpc(c, &wire.Msg{Type: wire.Twalk, Tag: 2, Fid: 0, Newfid: 5, Wname: []string{"sub"}}) &&
+			h.okRpc(c, &wire.Msg{Type: wire.Tcreate, Tag: 3, Fid: 5, Name: name, Perm: 0o644, Mode: 2}) &&
+			h.okRpc(c, &wire.Msg{Type: wire.Twrite, Tag: 4, Fid: 5, Offset: 0, Count: 5, Data: []byte("hello")}) &&
+			h.okRpc(c, &wire.Msg{Type: wire.Twalk, Tag: 5, Fid: 0, Newfid: 7, Wname: []string{"sub", name}}) &&
+			h.okRpc(c, &wire.Msg{Type: wire.Tremove, Tag: 6, Fid: 7})
+	case "unlinked-dir":
+		name := fmt.Sprintf("gonedir%d", h.sessions)
+		return 5, h.okRpc(c, &wire.Msg{Type: wire.Twalk, Tag: 2, Fid: 0, Newfid: 5, Wname: []string{"sub"}}) &&
+			h.okRpc(c, &wire.Msg{Type: wire.Tcreate, Tag: 3, Fid: 5, Name: name, Perm: 0x80000000 | 0o755, Mode: 0}) &&
+			h.okRpc(c, &wire.Msg{Type: wire.Twalk, Tag: 5, Fid: 0, Newfid: 7, Wname: []string{"sub", name}}) &&
+			h.okRpc(c, &wire.Msg{Type: wire.Tremove, Tag: 6, Fid: 7})
 	case "created":
 		return 5, h.okRpc(c, &wire.Msg{Type: wire.Twalk, Tag: 2, Fid: 0, Newfid: 5, Wname: []string{"sub"}}) &&
 			h.okRpc(c, &wire.Msg{Type: wire.Tcreate, Tag: 3, Fid: 5, Name: fmt.Sprintf("cr%d", h.sessions), Perm: 0o644, Mode: 2})
